@@ -16,14 +16,13 @@ use parking_lot::Mutex;
 
 use std::collections::HashMap;
 use std::io::ErrorKind;
-use std::pin::Pin;
 use std::sync::Arc;
 
 pub(crate) struct Subscriber {
     /// The number of the connection (see `backend::next_conn`)
     pub(crate) conn: u64,
     pub(crate) subscriptions: Vec<Vec<u8>>,
-    pub(crate) send_queue: Pin<Box<ZmqFramedWrite>>,
+    pub(crate) send_queue: crate::backend::SubscriberQueue,
     _subscription_coro_stop: oneshot::Sender<()>,
 }
 
@@ -128,7 +127,7 @@ impl MultiPeerBackend for PubSocketBackend {
                 Subscriber {
                     conn,
                     subscriptions: vec![],
-                    send_queue: Box::pin(send_queue),
+                    send_queue: crate::backend::SubscriberQueue::new(send_queue),
                     _subscription_coro_stop: sender,
                 },
             )
@@ -209,7 +208,6 @@ impl SocketSend for PubSocket {
                 {
                     let res = subscriber
                         .send_queue
-                        .as_mut()
                         .try_send(Message::Message(message.clone()));
                     match res {
                         Ok(()) => {}
